@@ -146,11 +146,11 @@ span<const polyline::point> polyline::part::points() const
 {
 	size_t len = _part.usr;
 	const point *pts = _pts;
-	if (_part._cut) {
+	if (_part._cut && len) {
 		++pts;
 		--len;
 	}
-	if (_part._trim) {
+	if (_part._trim && len) {
 		--len;
 	}
 	return span<const point>(pts, len);
